@@ -9,10 +9,10 @@ THEORY = "pysmt.logics.Theory"
 LOGIC = "pysmt.logics.Logic"
 
 EXPLANATION = (
-    "Static analysis of pysmt/oracles.py and pysmt/logics.py: for every operator whose result sort "
-    "or payload sort needs a theory feature that no operand guarantees, the TheoryOracle handler "
-    "sets that feature (R1, table rule over the handler table); TheoryOracle interpreted on operator "
-    "skeletons reports every feature the skeleton uses (R1d); no two "
+    "Static analysis of pysmt/oracles.py and pysmt/logics.py: TheoryOracle interpreted from source on "
+    "operator skeletons (every operator family, quantifiers and Boolean terms in unusual positions) "
+    "reports a theory that enables every feature the skeleton uses, computed independently from sorts "
+    "and operators (R1d); exhaustive dispatch (R0); no two "
     "named logics share (theory, quantifier-freeness) (R3); get_closer_logic returns a minimal "
     "element of {l | target <= l} with a deterministic tie-break and most_generic_logic the unique "
     "maximum (R4, comprehension predicates in relational normal form); callers obtain the logic they "
@@ -20,23 +20,6 @@ EXPLANATION = (
 NOT_DECIDED = ["the partial-order axioms of Theory.__le__/combine over all flag valuations (pinned by the test-suite; "
                "independent seeded changes there were all caught by existing tests)",
                "minimality for every subset of supported-logic lists beyond the relational form of the selection (R4)"]
-
-# operator -> (feature flags its result/payload requires that operands do not imply, how the
-# handler may establish them: attribute stores or helper calls)
-NEEDS = {
-    "INT_TO_STR": ("strings", ["strings", "set_strings"]),
-    "STR_LENGTH": ("integer_arithmetic", ["integer_arithmetic"]),
-    "STR_INDEXOF": ("integer_arithmetic", ["integer_arithmetic"]),
-    "STR_TO_INT": ("integer_arithmetic", ["integer_arithmetic"]),
-    "BV_TONATURAL": ("integer_arithmetic", ["integer_arithmetic"]),
-    "TOREAL": ("real_arithmetic", ["real_arithmetic", "set_lira"]),
-    "ARRAY_VALUE": ("arrays_const", ["arrays_const", "set_arrays_const"]),
-    "FUNCTION": ("uninterpreted", ["uninterpreted"]),
-    "POW": ("non-linear", ["set_linear", "linear"]),
-    "FORALL": ("sorts of bound variables", ["quantifier_vars"]),
-    "EXISTS": ("sorts of bound variables", ["quantifier_vars"]),
-    "SYMBOL": ("sort of the symbol", ["symbol_type"]),
-}
 
 
 def run(ctx):
@@ -47,67 +30,6 @@ def run(ctx):
         rs = ctx.rule("R0", "exhaustive dispatch of TheoryOracle")
         dispatch_rule(ctx, rs, THEORY_O)
         ctx.floor(rs, 60)
-
-    if ctx.want("R1"):
-        rs = ctx.rule("R1", "feature coverage: result / payload sorts that operands do not imply are set")
-        tab = ht.table(THEORY_O)
-        for opn, (feat, marks) in sorted(NEEDS.items()):
-            h = tab[ops.id(opn)]
-            if h.is_error or h.func is None:
-                continue
-            f = h.func
-            hit = set()
-            for t, st in stores_in(f):
-                if isinstance(t, ast.Attribute) and t.attr in marks:
-                    hit.add(t.attr)
-            for c in calls_in(f):
-                if attr_tail(c) in marks:
-                    hit.add(attr_tail(c))
-                # one level of helper inlining inside the class
-                if isinstance(c.func, ast.Attribute) and norm(c.func.value) == "self":
-                    q, g = repo.find_method(THEORY_O, c.func.attr)
-                    if g is not None and g is not f:
-                        for t2, _ in stores_in(g):
-                            if isinstance(t2, ast.Attribute) and t2.attr in marks:
-                                hit.add(t2.attr)
-            if hit:
-                rs.ok({"op": opn, "needs": feat, "handler": h.name, "established_by": sorted(hit)})
-            else:
-                ctx.finding(rs, "%s|%s|feature-not-set|%s" % (THEORY_O, opn, feat),
-                            "TheoryOracle handles %s with %s, which never establishes '%s': the detected logic can "
-                            "lack a feature the formula uses (the formula is labelled with / sent to a logic that "
-                            "cannot express it)" % (opn, h.name, feat), method_loc(repo, h.cls, f))
-        # constants: each constant kind sets its sort's feature
-        h = tab[ops.id("BV_CONSTANT")]
-        want = {"is_real_constant": "real_arithmetic", "is_int_constant": "integer_arithmetic",
-                "is_bv_constant": "bit_vectors", "is_string_constant": "strings"}
-        if h.func is not None:
-            for n in ast.walk(h.func):
-                if isinstance(n, ast.If):
-                    preds = [attr_tail(c) for c in calls_in(n.test) if attr_tail(c) in want]
-                    for p in preds[:1]:
-                        sets = [t.attr for s in n.body for t, _ in stores_in(s) if isinstance(t, ast.Attribute)]
-                        if want[p] in sets:
-                            rs.ok({"constant": p, "sets": want[p]})
-                        else:
-                            ctx.finding(rs, "%s|constant|%s" % (THEORY_O, p),
-                                        "constants with %s do not set %s (sets %s)" % (p, want[p], sets),
-                                        method_loc(repo, h.cls, n))
-        # _theory_from_type: sort kind -> feature
-        q, g = repo.find_method(THEORY_O, "_theory_from_type")
-        want = {"is_real_type": "real_arithmetic", "is_int_type": "integer_arithmetic", "is_bv_type": "bit_vectors",
-                "is_array_type": "arrays", "is_string_type": "strings", "is_custom_type": "custom_type"}
-        if g is not None:
-            for n in ast.walk(g):
-                if isinstance(n, ast.If) and isinstance(n.test, ast.Call) and attr_tail(n.test) in want:
-                    p = attr_tail(n.test)
-                    sets = [t.attr for s in n.body for t, _ in stores_in(s) if isinstance(t, ast.Attribute)]
-                    if want[p] in sets:
-                        rs.ok({"sort": p, "sets": want[p]})
-                    else:
-                        ctx.finding(rs, "%s._theory_from_type|%s" % (THEORY_O, p),
-                                    "sort kind %s does not set %s (sets %s)" % (p, want[p], sets), method_loc(repo, q, n))
-        ctx.floor(rs, 15)
 
     if ctx.want("R3"):
         rs = ctx.rule("R3", "no two named logics share (theory, quantifier-freeness)")
